@@ -78,7 +78,15 @@ pub fn check_case(case: &Case) -> CheckResult {
 /// interface exercising the full presence product of optional fields
 fn presence_docs() -> Vec<(Document, Vec<(usize, String)>)> {
     let mut out = Vec::new();
-    let doc_texts = ["/** w */ ", "/** */ ", "/**\n * Größe 日本\n *\n * second 😀\n * @param x é\n */\n", "/** \"quoted\" \\ back */ "];
+    let doc_texts = [
+        "/** w */ ",
+        "/** */ ",
+        "/**\n * Größe 日本\n *\n * second 😀\n * @param x é\n */\n",
+        "/** \"quoted\" \\ back */ ",
+        // a star-only line before the end (documentation ending in a line break), and tag-only text
+        "/**\n * Service interface.\n *\n */\n",
+        "/** @hide */ ",
+    ];
     // methods: oneway x annotations x code x doc
     for iface_oneway in [false, true] {
         let mut it = Item::new(ItemKind::Interface, "I");
@@ -88,7 +96,7 @@ fn presence_docs() -> Vec<(Document, Vec<(usize, String)>)> {
         for ow in [false, true] {
             for an in 0..3 {
                 for code in [false, true] {
-                    for doc in [None, Some(0usize), Some(1), Some(2), Some(3)] {
+                    for doc in [None, Some(0usize), Some(1), Some(2), Some(3), Some(4), Some(5)] {
                         let mut m = Method::new(Ty::void(), &format!("m{k}"), vec![]);
                         m.oneway = ow;
                         match an {
